@@ -38,7 +38,7 @@ pub fn props() -> Vec<Prop> {
             id: "C11",
             run: c11,
             tools: None,
-            rule: "oracle 1: reference evaluation of the documented grammar [dfa]:[ugoa]+[-+=][rwx]+ (comma repeatable) against chmod_b(p).sym(expr).exec() + mode(p) on a file, a directory and a link for every well-formed single clause (945) x 64 (quick) / all 512 (thorough) start modes, double clauses (sample / all first x 64 second), clearly malformed expressions (error and mode unchanged), octal all/dirs/files; type bits unchanged; is_exec/is_readonly == predicates on mode(). oracle 2: for reference states of the bounded namespace x builder option records (all/dirs/files octal, sym, recurse/no_recurse, follow; chown uid/gid/owner, recurse, follow) the complete post snapshot must equal the reference's changed-set (exactly the targeted entries, symlinks themselves never change under chmod). Memfs exhaustively; Stdfs (as root) on C02's domain. distinct_nontrivial = distinct (backend, clause shape or option record class, entry kind, outcome class) tuples. Later additions: octal values that coincide with a link's nominal mode and the default modes (0777, 0755, 0644).",
+            rule: "oracle 1: reference evaluation of the documented grammar [dfa]:[ugoa]+[-+=][rwx]+ (comma repeatable) against chmod_b(p).sym(expr).exec() + mode(p) on a file, a directory and a link for every well-formed single clause (945) x 64 (quick) / all 512 (thorough) start modes, double clauses (sample / all first x 64 second), clearly malformed expressions (error and mode unchanged), octal all/dirs/files; type bits unchanged; is_exec/is_readonly == predicates on mode(). oracle 2: for reference states of the bounded namespace x builder option records (all/dirs/files octal, sym, recurse/no_recurse, follow; chown uid/gid/owner, recurse, follow) the complete post snapshot must equal the reference's changed-set (exactly the targeted entries, symlinks themselves never change under chmod). Memfs exhaustively; Stdfs (as root) on C02's domain. distinct_nontrivial = distinct (backend, clause shape or option record class, entry kind, outcome class) tuples. Later additions: octal values that coincide with a link's nominal mode and the default modes (0777, 0755, 0644); owners of links on the real backend and mixed owners before a chown; one worker ends by giving up root and chmods trees whose directories it owns but cannot list (0300, 0000).",
             assumptions: &[
                 "expressions the implementation accepts although the strict grammar rejects them (repeated target letters, empty target) are not generated; malformed = missing ':' / operator / permissions or unknown letters",
                 "a malformed later clause is not judged (the statement only fixes the first clause)",
@@ -1272,6 +1272,57 @@ fn c11(ctx: &Ctx, rep: &mut Report) {
                     }
                 }
             }
+        }
+    }
+    // Last, and only in one worker: the same calls WITHOUT root's pass through every permission. The worker gives up
+    // its privileges for good (uid 1000 owns the sandbox) and chmods trees whose directories it owns but cannot list
+    // (0300, 0000): the documented grant-on-the-way-in is what lets a recursive chmod that adds read permission
+    // succeed there - a directory that is opened before it is granted answers EACCES.
+    if ctx.shard == 0 {
+        wipe(&sroot);
+        if drop_privileges(&sb, 1000, 1000) && unsafe { libc::geteuid() } == 1000 {
+            use std::os::unix::fs::PermissionsExt;
+            let v = Stdfs::new();
+            for (ci, (start, call)) in [(0o300u32, "chmod(0755)"), (0o000, "chmod(0755)"), (0o300, "chmod_b.dirs(0750).files(0640)"), (0o000, "chmod_b.sym(d:u+rwx,f:u+rw)"), (0o300, "chmod_b.all(0700).follow()")].iter().enumerate() {
+                rep.eval();
+                let top = format!("{}/np{}", sroot, ci);
+                let sub = format!("{}/sub", top);
+                let (f1, f2) = (format!("{}/f", top), format!("{}/g", sub));
+                let _ = std::fs::create_dir_all(&sub);
+                let _ = std::fs::write(&f1, b"x");
+                let _ = std::fs::write(&f2, b"y");
+                let _ = std::fs::set_permissions(&f1, std::fs::Permissions::from_mode(0o600));
+                let _ = std::fs::set_permissions(&f2, std::fs::Permissions::from_mode(0o600));
+                let _ = std::fs::set_permissions(&sub, std::fs::Permissions::from_mode(*start));
+                let _ = std::fs::set_permissions(&top, std::fs::Permissions::from_mode(*start));
+                set_case(&format!("chmodnp:stdfs({}):returns→stalls", call), &top);
+                let r = catch(|| match *call {
+                    "chmod(0755)" => v.chmod(&top, 0o755),
+                    "chmod_b.dirs(0750).files(0640)" => v.chmod_b(&top).and_then(|c| c.dirs(0o750).files(0o640).exec()),
+                    "chmod_b.sym(d:u+rwx,f:u+rw)" => v.chmod_b(&top).and_then(|c| c.sym("d:u+rwx,f:u+rw").exec()),
+                    _ => v.chmod_b(&top).and_then(|c| c.all(0o700).follow().exec()),
+                });
+                rep.key_str(&format!("stdfs-unprivileged|{}|start={:o}", call, start));
+                rep.count("unprivileged_chmods_of_unlistable_trees", 1);
+                let mode = |p: &str| std::fs::symlink_metadata(p).map(|m| m.permissions().mode() & 0o7777).unwrap_or(0o7777);
+                let (want_d, want_f) = match *call {
+                    "chmod(0755)" => (0o755, 0o755),
+                    "chmod_b.dirs(0750).files(0640)" => (0o750, 0o640),
+                    "chmod_b.sym(d:u+rwx,f:u+rw)" => (*start | 0o700, 0o600),
+                    _ => (0o700, 0o700),
+                };
+                let got = (mode(&top), mode(&sub), mode(&f1), mode(&f2));
+                let ok = matches!(r, Ok(Ok(()))) && got == (want_d, want_d, want_f, want_f);
+                if !ok {
+                    rep.violation(
+                        &format!("chmodnp:stdfs(unprivileged,dirs-start-at-{:o},{}):granted-on-the-way-in→{}", start, call, if matches!(r, Ok(Ok(()))) { "wrong-modes" } else { "Err" }),
+                        J::obj(vec![("call", J::s(*call)), ("result", J::s(format!("{:?}", r.map(|x| x.map_err(|e| e.to_string()))))), ("modes(top,sub,file,file)", J::s(format!("{:o} {:o} {:o} {:o}", got.0, got.1, got.2, got.3))), ("expected", J::s(format!("{:o} {:o} {:o} {:o}", want_d, want_d, want_f, want_f)))]),
+                    );
+                }
+                let _ = std::process::Command::new("chmod").args(["-R", "u+rwx", &top]).output();
+            }
+        } else {
+            rep.inconclusive("could not switch to uid 1000 for the unprivileged chmod cases");
         }
     }
     drop(sb);
